@@ -31,7 +31,7 @@ CFG = {
 }
 
 
-SIM = {"quick": (400, 8), "thorough": (4000, 12)}
+SIM = {"quick": (300, 8), "thorough": (4000, 12)}
 
 
 def write_cfg(path, c, emit, deviations="{}"):
